@@ -311,6 +311,13 @@ class Impl:
     def sess_of(self, key):
         return self.sess.setdefault(key, Sess())
 
+    def cycle(self, key, peer):
+        """a pending teardown is acted upon: the real Peer._reset (reset_rib, hand-over of peer._neighbor)"""
+        s = self.sess_of(key)
+        peer._reset('reload', 'teardown 3')
+        s.up, s.fresh, s.cur, s.buf, s.table = False, False, None, [], {}
+        self.trace.append(('drop', self.ids.nbname(key)))
+
     def establish(self, ip):
         """Peer._main up to the main loop: replace_restart(previous routes, current routes)"""
         from exabgp.bgp.fsm import FSM
@@ -321,6 +328,8 @@ class Impl:
         s = self.sess_of(key)
         if s.up:
             return
+        if peer._teardown:
+            self.cycle(key, peer)  # Peer._main: `if self._teardown: raise Notify(6, 3)`, then the peer starts again
         n = peer.neighbor
         previous = previous_routes(n)
         n.rib.outgoing.replace_restart(previous, n.routes)
@@ -459,10 +468,7 @@ class Impl:
                 # removed: Notify(6,3), the task ends, the main loop forgets the peer
                 s.up, s.cur, s.buf, s.table = False, None, [], {}
                 del self.rig.reactor._peers[key]
-            elif peer._teardown:
-                peer._reset('reload', 'teardown 3')  # real code: reset_rib(), neighbor hand-over
-                s.up, s.cur, s.buf, s.table = False, None, [], {}
-            elif peer._neighbor is not None and peer.fsm == FSM.ESTABLISHED:
+            elif not peer._teardown and peer._neighbor is not None and peer.fsm == FSM.ESTABLISHED:
                 # Peer._main, top of the loop
                 previous = previous_routes(peer._neighbor)
                 current = peer._neighbor.routes
@@ -471,6 +477,15 @@ class Impl:
                     peer._neighbor.previous = None
                 peer._neighbor = None
         self.step_obs.append(self.observe()['ribs'])
+        for key, peer in list(self.rig.reactor._peers.items()):
+            s = self.sess_of(key)
+            if peer._teardown and peer._restart:
+                # an established session leaves its loop at once (Notify 6/3, Peer._reset); one that is down
+                # cycles at once, or only when the remote end shows up (a passive neighbor nobody connects to):
+                # until then peer.neighbor is still the OLD definition
+                ip = str(peer.neighbor.session.peer_address).split('/')[0]
+                if s.up or self.case.get('cycle', {}).get(ip, 'at-once') == 'at-once':
+                    self.cycle(key, peer)
         return ret, outcome
 
     # -- observation
@@ -510,7 +525,7 @@ class Impl:
         for key, n in cfg.neighbors.items():
             out['neighbors'][self.ids.nbname(key)] = (self.ids.params(n), [self.ids.route(r) for r in n.routes])
         for key, peer in self.rig.reactor._peers.items():
-            out['peers'][self.ids.nbname(key)] = self.ids.params(peer.neighbor)
+            out['peers'][self.ids.nbname(key)] = (self.ids.params(peer.neighbor), self.ids.params(peer._neighbor) if peer._neighbor is not None else 0)
         for name, rib in RIB._cache.items():
             if name.startswith('disabled-'):
                 continue
@@ -696,7 +711,7 @@ def parse_obs(zs):
         elif m == -3:
             out['stale'] = sorted(body)
         elif m == -4:
-            out['peers'] = {body[k]: body[k + 1] for k in range(0, len(body), 2)}
+            out['peers'] = {body[k]: (body[k + 1], body[k + 2]) for k in range(0, len(body), 3)}
         elif m == -5:
             rib = target.setdefault(body[0], {})
             rib['up'] = bool(body[1])
@@ -1002,6 +1017,9 @@ def judge(case, im):
                 if k in curmap and curmap[k]['hold'] != nb['hold']:
                     reest.add(k)
             cur = rl['cfg']
+            gone = {k for k in reest | chained if k not in {nbkey(nb) for nb in cur}}
+            reest -= gone
+            chained -= gone
             accepted += 1
             continue
         # a failed reload: nothing may move
@@ -1176,6 +1194,7 @@ def describe(case):
          'fsm_state_of_the_sessions_that_are_down': case.get('fsm', {}), 'reloads': []}
     for rl in reloads_of(case):
         d['reloads'].append({'file': None if rl['cfg'] is None else render(rl['cfg'], rl.get('fault')), 'fault': rl.get('fault')})
+    d['when_a_session_that_is_down_acts_on_a_teardown'] = case.get('cycle', {})
     d['api_operations_before_the_sessions_are_back'] = [list(map(str, x)) for x in case.get('mid', [])]
     d['then'] = 'every session is established (replace_restart as Peer._main does) and drained; the peer tables are judged'
     d['then_rounds'] = [{'operations (api, session loss = Peer._reset)': [list(map(str, x)) for x in rnd],
@@ -1216,6 +1235,16 @@ def gen_sequence(rng, old, n):
     for _ in range(n):
         x = rng.random()
         new, _ = mutate(rng, cur)
+        if rng.random() < 0.3:
+            # a neighbor leaves, or one that left (or never was) comes (back) with other routes
+            new = copy.deepcopy(cur)
+            missing = [ip for ip in IPS if ip not in [nb['ip'] for nb in new]]
+            if missing and (len(new) <= 1 or rng.random() < 0.6):
+                prefixes = rng.sample(range(len(PREFIXES) - 1), rng.choice([0, 1, 2, 3]))
+                new.append({'ip': rng.choice(missing), 'peer_as': PEER_AS[0], 'hold': rng.choice(HOLDS),
+                            'routes': [(p, rng.randrange(2), rng.randrange(len(ATTRS))) for p in sorted(prefixes)]})
+            elif len(new) > 1:
+                new.pop(rng.randrange(len(new)))
         if x < 0.08:
             out.append({'cfg': None, 'fault': None})
         elif x < 0.25:
@@ -1271,6 +1300,40 @@ def scripted_sequences():
             for mid, rounds in afters:
                 out.append({'old': nb([A, B]), 'new': first, 'pre': pre, 'reloads': [{'cfg': first, 'fault': None}],
                             'fsm': fsm, 'mid': list(mid), 'rounds': [list(r) for r in rounds]})
+    return out
+
+
+def scripted_flaps():
+    """small scope: a neighbor is modified, removed and configured again, in every FSM state, before and after
+    its session cycled: nothing of its earlier incarnation (file routes, API routes, owed withdraws) may survive"""
+    X = {'ip': IPS[0], 'peer_as': PEER_AS[0], 'hold': 180, 'routes': [(4, 0, 0)]}
+
+    def B(routes, hold=180):
+        return {'ip': IPS[1], 'peer_as': PEER_AS[0], 'hold': hold, 'routes': list(routes)}
+
+    R1, R2, R3 = (0, 0, 0), (1, 0, 0), (2, 0, 0)
+    bad = {'cfg': [X, B([R3])], 'fault': ('badvalue', 1, 7)}
+    seqs = [
+        [[X, B([R1], 90)], [X], [X, B([R3])]],
+        [[X], [X, B([R3])]],
+        [[X, B([R1], 90)], [X], [X, B([R3], 90)]],
+        [[X, B([R1], 90)], [X], [X, B([R1, R2])]],
+        [[X], [X, B([R3])], [X], [X, B([R1, R2])]],
+        [[X, B([R1], 90)], bad, [X], [X, B([R3])]],
+        [[X, B([R1], 90)], [X, B([R1, R3], 180)], [X], [X, B([R2])]],
+    ]
+    out = []
+    for state in DOWN_STATES + ['UP']:
+        for cyc in ('at-once', 'late'):
+            for api in (False, True):
+                for seq in seqs:
+                    rls = [x if isinstance(x, dict) else {'cfg': x, 'fault': None} for x in seq]
+                    pre = [('establish', IPS[1]), ('drain', IPS[1])] if state == 'UP' else []
+                    if api:
+                        pre.append(('api', IPS[1], 'announce', (3, 1, 1)))
+                    out.append({'old': [X, B([R1, R2])], 'new': rls[0]['cfg'], 'pre': pre, 'reloads': rls,
+                                'fsm': {IPS[0]: 'IDLE'} if state == 'UP' else {IPS[0]: 'IDLE', IPS[1]: state},
+                                'cycle': {IPS[0]: 'at-once', IPS[1]: cyc}, 'rounds': [[('drop', IPS[1])]]})
     return out
 
 
@@ -1367,7 +1430,7 @@ def check(tier, seed):
         pre = gen_pre(rng, old)
         if rng.random() < 0.6:
             pre = [st for st in pre if st[0] == 'api']  # every session down through all the reloads
-        n = rng.choice([1, 2, 2, 3, 3])
+        n = rng.choice([1, 2, 2, 3, 3, 4])
         rls = gen_sequence(rng, old, n)
         c = {'old': old, 'new': rls[0]['cfg'], 'pre': pre, 'reloads': rls}
         if rng.random() < 0.6:
@@ -1375,7 +1438,7 @@ def check(tier, seed):
         cases.append(c)
         kinds.append('sequence')
         seqmix[f'{n} reloads, {sum(1 for r in rls if r["fault"] or r["cfg"] is None)} failing'] += 1
-    scripted = scripted_sequences()
+    scripted = scripted_sequences() + scripted_flaps()
     cases += scripted
     kinds += ['scripted'] * len(scripted)
     faultmix = collections.Counter()
@@ -1404,6 +1467,8 @@ def check(tier, seed):
     for c in cases:
         if 'fsm' not in c:
             c['fsm'] = {ip: rng.choice(DOWN_STATES) for ip in IPS}
+        if 'cycle' not in c:
+            c['cycle'] = {ip: rng.choice(['at-once', 'late']) for ip in IPS}
         for v in c['fsm'].values():
             fsmmix[v] += 1
 
@@ -1483,6 +1548,9 @@ def check(tier, seed):
                 f'with every session down (60%) or mixed, plus {len(scripted)} scripted sequences (a route removed by the first reload, 0-2 more reloads, '
                 f'failed ones in between, parameter changes) in every down state and up; every session that is down sits in a random FSM state of '
                 f'{DOWN_STATES} at every reload; Model_Reload has ONE down state: the correspondence and the oracle both require the code to behave alike in all five; '
+                f'in the sequences three steps in ten remove a neighbor or configure one again (other routes, either hold-time); a session that is down acts on a '
+                f'pending teardown at once or only when it is established next (peer.neighbor is the old definition until then), per address at random; '
+                f'{len(scripted_flaps())} scripted modify / remove / configure-again histories in every FSM state x both timings x with and without an API route; '
                 f'40% of the pairs and 60% of the sequences go on after the reloads: API announce/withdraw before the sessions are back (one in three), then 0-2 rounds of '
                 f'API operations (6 prefixes: also the ones the reloads removed) and session losses (real Peer._reset), each round closed by a new establishment and drain; '
                 f'the peer tables are judged after EVERY establishment against files + API intent; '
